@@ -17,6 +17,9 @@ def run(ck, tier, seed):
     seen = set()
     for p in progs:
         c, o = cases[p["id"]], obs[p["id"]]
+        if o.get("skipped"):
+            ck.cov["not_run_unbounded_growth"] = ck.cov.get("not_run_unbounded_growth", 0) + 1
+            continue
         if "parse" in o:
             continue
         n += 1
@@ -59,6 +62,14 @@ def run(ck, tier, seed):
                 if sig not in seen:
                     seen.add(sig)
                     ck.mismatch(sig, {"src": c["src"], "status": status, "what": bad}, replay={"kind": "lang", "prog": p})
+    for h in [x for x in hangobs if x.get("probe") == "grow"]:
+        ck.cov["evaluations"] += 1
+        if h["status"] == 200:
+            ck.mismatch("memory/exponential-growth-unbounded/%s" % h["mode"],
+                        {"program": "a route that doubles a 16-byte string 21 times", "answer": h["body"], "bytes_allocated": h["alloc"],
+                         "meaning": "nothing bounds the memory of one evaluation: 40 doublings instead of 21 end the process (fatal out of memory), which is how the thorough tier first met this"},
+                        replay={"kind": "lang-hang"})
+    hangobs = [x for x in hangobs if x.get("probe") != "grow"]
     for h in hangobs:
         ck.cov["evaluations"] += 1
         ok = h.get("result", "").startswith("5") and h.get("secs", 99) < 20 and h.get("after") == "200"
